@@ -20,6 +20,10 @@ A case is a program of scripted handlers on one root component plus a top-level 
   act:  ['f', thr, n]  fire e<n>      ['s', thr, code]  stop(code)     (thr=1: from a second thread, joined)
   res:  ['y'] yield | ['r'] return | ['x', code] raise SystemExit(code) | ['k'] KeyboardInterrupt | ['e'] error
 
+A second kind of case, {'kind': 'preempt', 'h': ..., 'code': c, 'ops': [['run'], ['len']]}, is oracle-only: the RUN
+thread is held (sys.settrace line events in circuits/core code) before every line of the tick that goes idle and a
+second thread's stop(c) is placed there; the wait double then really blocks until woken (see run_preempt).
+
 The same case is compiled to a real circuits Component (impl) and to a Coq term (model_term).
 Observable = the flat log (same alphabet as Model/KLoop.tr without the ghost TFire):
   [1,k] dispatch of k | [2,k,i] plain handler | [3,k,i,g] generator created | [4,g,j] generator step |
@@ -105,6 +109,55 @@ class VEvent:
         return self.flag
 
 
+GUARD = 1.0          # liveness guard of the blocking wait double (pre-emption scenarios): never the mechanism
+
+
+class BlockingVEvent:
+    """wait double of the pre-emption scenarios ('kind': 'preempt'): the unbounded idle wait really blocks until
+    the wake flag is set (that a stop() always sets it is the point of these scenarios); GUARD only turns a loop
+    that is never woken into the complaint "run() does not return" """
+
+    def __init__(self):
+        self._e = threading.Event()
+
+    def clear(self):
+        self._e.clear()
+
+    def set(self):
+        self._e.set()
+
+    def is_set(self):
+        return self._e.is_set()
+
+    def wait(self, timeout=None):
+        c = Ctx.cur
+        if c is None or c.pre is None:
+            return self._e.is_set()
+        if c.runaway:
+            raise Runaway('idle wait of a loop that cannot be woken')
+        pre = c.pre
+        if pre['armed']:
+            pre['armed'] = False
+            if pre.get('idle_tick') is None:      # the counting run: this tick is the one that goes idle
+                pre['idle_tick'] = c.ticks
+                pre['nlines'] = pre['count']
+        inf = not (timeout is not None and timeout < 1000)
+        c.log.append([7, inf])
+        if pre.get('pending_release'):
+            pre['pending_release'] = False
+            c.finish_late()
+        if not pre['injected']:
+            pre['injected'] = True
+            c.do_stop(1, pre['code'])     # no line left: the stop arrives while the loop waits (as in all other cases)
+        if not inf:
+            return self._e.is_set()
+        if self._e.wait(GUARD):
+            return True
+        c.runaway = True
+        c.hung = True
+        raise Runaway('the idle loop was not woken by stop()')
+
+
 class Driver:
     runaways = 0        # after a few runaway cases (a broken loop) the per-case budget shrinks
 
@@ -118,6 +171,8 @@ class Driver:
         self.ngen = 0
         self.ndisp = 0
         self.late = None
+        self.pre = None
+        self.hung = False
         self.serial = 0
         self.fired = {}
         self.dispatched = set()
@@ -196,6 +251,13 @@ class Driver:
                 drv.runaway = True
                 raise Runaway('too many ticks')
             log.append([8])
+            pre = drv.pre
+            if pre is not None and pre['injected'] and not pre.get('pending_release'):
+                pre['armed'] = False
+            if pre is not None and not pre['injected'] and pre.get('nlines') is None:
+                if pre['k'] is None or drv.ticks == pre['tick']:
+                    pre['armed'] = True       # count / pre-empt the line events of this tick
+                    pre['count'] = 0
             return orig_tick(*a, **kw)
         app.tick = tick
         orig_fire = app.fire
@@ -393,11 +455,57 @@ class Driver:
             self.marks.append(info)
 
 
-def run_case(case):
+CIRC_DIR = os.path.dirname(os.path.abspath(_helpers.__file__))     # .../circuits/core
+
+
+def lock_owned(app):
+    """does the calling (run) thread hold the manager's lock?"""
+    f = getattr(getattr(app, '_lock', None), '_is_owned', None)
+    try:
+        return bool(f()) if f is not None else False
+    except Exception:      # noqa
+        return False
+
+
+def make_tracer(drv):
+    """line tracer of the run thread: scenario k holds it right before its k-th line event (in circuits/core code)
+    of the tick that goes idle, lets a second thread run stop(code) -- to completion if the run thread does not
+    hold the manager's lock; else up to the entry of its fire(stopped), and to completion at the first line event
+    after the lock has been released (a second thread cannot get further earlier) -- and lets it go on"""
+    pre = drv.pre
+
+    def ltrace(frame, what, arg):
+        if what == 'line' and pre['armed']:
+            if pre.get('pending_release') and not lock_owned(drv.app):
+                pre['pending_release'] = False
+                drv.finish_late()
+            pre['count'] += 1
+            if pre['k'] is not None and not pre['injected'] and pre['count'] == pre['k']:
+                pre['injected'] = True
+                pre['where'] = '%s+%d' % (frame.f_code.co_name, frame.f_lineno - frame.f_code.co_firstlineno)
+                if lock_owned(drv.app):
+                    pre['split'] = True
+                    drv.late_stop(pre['code'], early=True)
+                    pre['pending_release'] = drv.late is not None
+                else:
+                    drv.do_stop(1, pre['code'])
+        return ltrace
+
+    def gtrace(frame, what, arg):
+        if what == 'call' and pre['armed'] and frame.f_code.co_filename.startswith(CIRC_DIR):
+            return ltrace
+        return None
+    return gtrace
+
+
+def run_case(case, pre=None):
     saved = _helpers.Event
-    _helpers.Event = VEvent
+    _helpers.Event = VEvent if pre is None else BlockingVEvent
     drv = Driver(case)
+    drv.pre = pre
     Ctx.cur = drv
+    if pre is not None:
+        sys.settrace(make_tracer(drv))
 
     def on_alarm(signo, frame):        # watchdog: a loop that neither returns nor ticks
         drv.runaway = True
@@ -412,6 +520,8 @@ def run_case(case):
         except Runaway:
             drv.runaway = True
     finally:
+        if pre is not None:
+            sys.settrace(None)
         if drv.late is not None:
             drv.late['release'].set()
         if old_alarm is not None:
@@ -428,9 +538,30 @@ def run_case(case):
             cur.append(e[1])
         elif e[0] == 1:
             cur = None
-    if drv.runaway:
+    if drv.runaway and pre is None:
         Driver.runaways += 1
-    return {'log': drv.log, 'marks': drv.marks, 'sched': sched, 'runaway': drv.runaway}
+    return {'log': drv.log, 'marks': drv.marks, 'sched': sched, 'runaway': drv.runaway, 'hung': drv.hung}
+
+
+def run_preempt(case):
+    """'kind': 'preempt' -- one counting run (stop arrives at the idle wait), then one run per line event of the run
+    thread between entering tick() of the tick that goes idle and entering the wait, with a second thread's
+    stop(code) placed right before that line.  Oracle only (the model has no wake-up handshake)."""
+    def fresh(k, tick):
+        return {'k': k, 'tick': tick, 'code': case.get('code'), 'armed': False, 'count': 0, 'injected': False}
+    pre0 = fresh(None, None)
+    base = run_case(case, pre0)
+    n, tick = pre0.get('nlines') or 0, pre0.get('idle_tick')
+    scen = [{'k': 0, 'where': 'idle wait', 'log': base['log'], 'marks': base['marks'], 'runaway': base['runaway'],
+             'hung': base['hung']}]
+    for k in range(1, n + 1):
+        pre = fresh(k, tick)
+        o = run_case(case, pre)
+        scen.append({'k': k, 'where': pre.get('where', '?'), 'split': bool(pre.get('split')), 'log': o['log'],
+                     'marks': o['marks'], 'runaway': o['runaway'], 'hung': o['hung'],
+                     'injected': pre['injected'] and 'where' in pre})
+    return {'kind': 'preempt', 'nlines': n, 'idle_tick': tick, 'scen': scen, 'log': [], 'marks': [], 'sched': [],
+            'runaway': any(x['runaway'] for x in scen)}
 
 
 # ----------------------------------------------------------------------------- Coq emission
@@ -656,6 +787,21 @@ class Gen:
         ops += [['flush'], ['len']]
         return {'h': sorted([k, v] for k, v in h.items() if v), 'ext': ext, 'ops': ops, 'place': 'early-stop'}
 
+    def preempt(self):
+        """a tiny program whose loop goes idle; the second thread's stop(code) is placed before every line event
+        of the run thread in the tick that goes idle (see run_preempt)"""
+        r = self.rng
+        h = {}
+        v = r.choice([0, 1, 2])
+        if v >= 1:
+            h[1] = [{'t': 'p', 'a': [['f', 0, 0]], 'r': ['r']}]       # stopped fires e0 (must still be dispatched)
+            h[10] = [{'t': 'p', 'a': [], 'r': ['r']}]
+        if v == 2:
+            h[0] = [{'t': 'p', 'a': [['f', 0, 1]], 'r': ['r']}]       # the idle tick is not the first one
+            h[11] = [{'t': 'p', 'a': [], 'r': ['r']}]
+        return {'kind': 'preempt', 'h': sorted([k, b] for k, b in h.items()), 'ext': [], 'code': r.choice(CODES),
+                'ops': [['run'], ['len']], 'place': 'preempt'}
+
     def manual(self):
         """the application-specific main loop: running without run(); stop() ticks inline"""
         r = self.rng
@@ -700,7 +846,13 @@ class C08(Prop):
     def generate(self, rng, n, tier):
         g = Gen(rng)
         out = []
+        npre = 1 if tier == "quick" else 12
         for i in range(n):
+            if i < npre:
+                c = g.preempt()
+                out.append(c)
+                self.stats['place'][c['place']] = self.stats['place'].get(c['place'], 0) + 1
+                continue
             x = rng.random()
             c = g.manual() if x < 0.08 else g.late_chain() if x < 0.18 else g.early_stop() if x < 0.24 else g.case()
             out.append(c)
@@ -710,9 +862,13 @@ class C08(Prop):
         return out
 
     def impl(self, case):
+        if case.get('kind') == 'preempt':
+            return run_preempt(case)
         return run_case(case)
 
     def model_term(self, case):
+        if case.get('kind') == 'preempt':
+            return None         # oracle only
         hs = '[%s]' % '; '.join('(%s, [%s])' % (c_kind(k), '; '.join(c_body(b) for b in bs)) for k, bs in case['h'])
         obs = getattr(self, '_last', {}).get(common.canon(case))
         if obs is None:
@@ -740,12 +896,23 @@ class C08(Prop):
     # ---- the property, read directly on the log of the real code
     def complaints(self, case, obs):
         """every way in which the run of the real code violates the property: list of (op index, text)"""
+        if obs.get('kind') == 'preempt':
+            out_ = []
+            for sc in obs['scen']:
+                for idx, t in self.complaints(case, sc):
+                    out_.append((idx, 'stop(%r) by a second thread right before line event #%d (%s) of the tick that '
+                                      'goes idle: %s' % (case.get('code'), sc['k'], sc['where'], t)))
+            return out_
         out_ = []
         log = obs['log']
         for idx, m in enumerate(obs['marks']):
             def bad(t):
                 out_.append((idx, t))
             if m['op'] == 'run':
+                if obs.get('hung'):
+                    bad('run() does not return although stop was requested: the idle loop is never woken '
+                        '(`stopped` queued, loop asleep; guard %.1f s)' % GUARD)
+                    continue
                 if m.get('runaway') or obs['runaway']:
                     bad('run() does not return although stop was requested (more than %d ticks)' % MAXTICKS)
                     continue
@@ -803,7 +970,7 @@ class C08(Prop):
         """C08-early-return-race: every complaint is "stopped dispatched 0 times before run() returned" about a
         run() during which a stopping second thread was parked before its fire(stopped) ([12] in that run's
         log) -- anything else in such a case, or that complaint without the early-parked stop, is new"""
-        if not isinstance(obs, dict) or 'log' not in obs:
+        if not isinstance(obs, dict) or 'log' not in obs or obs.get('kind') == 'preempt':
             return None
         cs = self.complaints(case, obs)
         if not cs:
@@ -821,6 +988,9 @@ class C08(Prop):
     def nontrivial(self, case, obs):
         if not isinstance(obs, dict) or 'log' not in obs:
             return False
+        if obs.get('kind') == 'preempt':
+            self.stats['preempt_scenarios'] = self.stats.get('preempt_scenarios', 0) + len(obs['scen'])
+            return obs['nlines'] > 10
         log = obs['log']
         explicit = any(a[0] == 's' for k, bs in case['h'] for b in bs
                        for a in (b['a'] if b['t'] == 'p' else [x for s in b['s'] for x in s[0]]))
@@ -829,7 +999,8 @@ class C08(Prop):
 
     def search(self, rng, tier):
         g = Gen(rng)
-        return [g.late_chain() if i % 4 == 0 else g.early_stop() if i % 4 == 1 else g.case() for i in range(1500)]
+        return [g.preempt() for _ in range(3)] + [
+            g.late_chain() if i % 4 == 0 else g.early_stop() if i % 4 == 1 else g.case() for i in range(1500)]
 
 
 if __name__ == '__main__':
